@@ -172,6 +172,26 @@ def _var(x, axis, keepdims):
     return A.reduce_("mean", d * d, axis, keepdims)
 
 
+class Device(object):
+    """A compute device: an immutable identity with the attributes jax exposes (id, platform, device_kind, process_index)."""
+
+    def __init__(self, i, platform="cpu"):
+        self.id = i
+        self.platform = platform
+        self.device_kind = platform
+        self.process_index = 0
+        self.host_id = 0
+
+    def __repr__(self):
+        return "Device(%s:%d)" % (self.platform, self.id)
+
+    def __eq__(self, o):
+        return isinstance(o, Device) and (o.id, o.platform) == (self.id, self.platform)
+
+    def __hash__(self):
+        return hash((self.platform, self.id))
+
+
 def make_shims(world):
     W = world
 
@@ -845,7 +865,7 @@ def make_shims(world):
         return VmapWrap(W, f, "filter" if in_axes is None else in_axes, out_axes, None)
 
     def devices(*a):
-        return ["dev%d" % i for i in range(W.n_devices)]
+        return [Device(i) for i in range(W.n_devices)]
 
     def register_pytree_node_class(cls):
         cls.pytree = True
@@ -910,7 +930,7 @@ def make_shims(world):
         tree=NS("jax.tree", map=tree_map_fn, leaves=tree_leaves_fn, flatten=lambda t, **k: (tree_leaves(t), ("treedef", t))),
         Array=ArrayType("jax.Array"),
         core=NS("jax.core", Tracer=TracerType(W)),
-        Device=object,
+        Device=Device,
         typing=NS("jax.typing", ArrayLike=object),
     )
 
